@@ -94,13 +94,13 @@ def canaries(u, chk, n=40):
     for c in rng.sample(pool, min(n, len(pool))):
         k = dict(c)
         obs = list(c['obs'])
+        idx = rng.choice([i for i, o in enumerate(obs) if o['k'] == 't'])
         if rng.random() < 0.5:
-            idx = rng.choice([i for i, o in enumerate(obs) if o['k'] == 't'])
             del obs[idx]
             why = 'text fragment dropped'
         else:
-            obs.append({'k': 'nl', 'n': 0, 't': 0, 'a': 0, 'r': 0})
-            why = 'extra line break appended'
+            obs.insert(idx, dict(obs[idx]))
+            why = 'text fragment duplicated'
         k['obs'] = obs
         k['model'] = False
         k['term'] = []
